@@ -84,8 +84,16 @@ def stepLine (st : St) (line : String) : St × String :=
     | _, _ => (st, "bad-op")
   | ["incfee", id, who, t, add] =>
     match nat? id, nat? who, nat? t, nat? add with
-    | some id, some who, some t, some add => apply st (.incFee id who t add)
+    | some id, some who, some t, some add => apply st (.incFee id who t add false)
     | _, _, _, _ => (st, "bad-op")
+  | ["pincfee", id, who, t, add] =>   -- `increaseBridgeFee` precompile with the token's ERC-20 contract
+    match nat? id, nat? who, nat? t, nat? add with
+    | some id, some who, some t, some add => apply st (.incFee id who t add true)
+    | _, _, _, _ => (st, "bad-op")
+  | ["pexec", n, _who] =>   -- `executeClaim` precompile: the same keeper entry point, whoever calls
+    match nat? n with
+    | some n => apply st (.exec n)
+    | none => (st, "bad-op")
   | ["reqbatch", t, mf, bf, fr] =>
     match nat? t, nat? mf, nat? bf with
     | some t, some mf, some bf => apply st (.reqBatch t mf bf (str fr))
